@@ -242,6 +242,8 @@ func c09Many(nu, ns int, writeFails bool, bound int) *explore.Scenario {
 			}
 			vsched.Obs("in flight %d+%d: hung=%d", nu, ns, hung)
 			close(gate)
+			vsched.Quiesce()
+			finishDirect(d, w, false) // (ids on the wire stay pairwise distinct whatever the failure does to calls being started)
 		},
 	}
 }
